@@ -125,6 +125,22 @@ KeyLenAt(j) ==
       m   == (j - 1) % 3
       b   == IF m = 0 THEN PadLeft(<<5>>, len) ELSE IF m = 1 THEN Rep(len, 255) ELSE Prng(K("kl", <<j>>), len)
   IN  KItem("key.new", "lengths", [secret |-> BytesToHex(IF len = 0 THEN <<>> ELSE b)])
+\* byte strings that ENCODE a valid secret in some other way than as the 32 big-endian bytes: its hexadecimal text
+\* (either case, with 0x), the text of a shorter scalar, its decimal text, the secret twice, padded on either side,
+\* with a line end, in WIF / DER-like wrappers.  Only zero padding on the LEFT denotes the same integer.
+EncScalars == <<PadLeft(<<1>>, 32), NMinus(1), Prng(K("ke", <<1>>), 32), Prng(K("ke", <<2>>), 32), <<0, 0, 0, 0, 0, 0, 0, 0>> \o Prng(K("ke", <<3>>), 24),
+                PadLeft(<<171, 205>>, 32), Rep(32, 17), <<0>> \o Prng(K("ke", <<4>>), 31)>>
+UpperCodes(cs) == [i \in 1..Len(cs) |-> IF IsLowerHexCode(cs[i]) THEN cs[i] - 32 ELSE cs[i]]
+Encodings(k) == <<
+  HexLower(k), UpperCodes(HexLower(k)), <<48, 120>> \o HexLower(k), <<48, 88>> \o UpperCodes(HexLower(k)),
+  HexLower(BnNorm(k)), <<48, 120>> \o HexLower(BnNorm(k)), HexLower(SubSeq(k, 9, 32)), HexLower(SubSeq(k, 2, 32)),
+  DecCodes(BnToDec(BnNorm(k))), k \o k, k \o Zeros(32), Zeros(32) \o k, <<0>> \o k, k \o <<0>>, k \o <<10>>, <<128>> \o k, <<128>> \o k \o <<1>>,
+  <<48, 46, 2, 1, 1, 4, 32>> \o k, <<4, 32>> \o k, HexLower(k) \o <<10>>, <<32>> \o HexLower(k), SubSeq(HexLower(k), 1, 32) >>
+NEncodings == 22
+NKeyEnc == NEncodings * Len(EncScalars)
+KeyEncAt(j) ==
+  LET k == EncScalars[1 + ((j - 1) \div NEncodings)]
+  IN  KItem("key.new", "encoded_secret", [secret |-> BytesToHex(Encodings(k)[1 + ((j - 1) % NEncodings)])])
 NKeyRand == IF Thorough THEN 11000 ELSE 800
 KeyAt(j) ==
   IF j <= Len(Scalars) THEN KItem("key.new", "scalars", [secret |-> BytesToHex(Scalars[j])])
